@@ -378,6 +378,7 @@ func (c *Client) SendProtobufParallelWithDecoder(nodes []*network.ServerIdentity
 								break
 							}
 						}
+						verifAt("client.parAccept", node)
 						decodedChan <- node
 						close(done)
 					}
